@@ -195,3 +195,70 @@ Proof.
   split; [reflexivity|]. eexists. split; [vm_compute; reflexivity|].
   intros [_ L]. vm_compute in L. discriminate.
 Qed.
+
+(* ===== the tie's expression shapes meet the hypotheses ===== *)
+
+(* the expression shapes of the tie satisfy the congruence hypotheses of the theorems *)
+Lemma veq_tid a b : vcompare a b = 0 -> tid a = tid b.
+Proof.
+  intro H. destruct (Z.eq_dec (tid a) (tid b)) as [E|NE]; [exact E|].
+  rewrite (vcompare_tid_ne a b NE) in H. destruct (tid a <? tid b); discriminate.
+Qed.
+Lemma veq_is_null a b : vcompare a b = 0 -> is_null a = is_null b.
+Proof. intro H. apply veq_tid in H. destruct a, b; simpl in *; try reflexivity; discriminate. Qed.
+Lemma veq_int_field a b : vcompare a b = 0 -> int_field a = int_field b.
+Proof.
+  intro H. pose proof (veq_tid a b H) as T. destruct a, b; simpl in T; try discriminate; try reflexivity.
+  cbn [int_field]. rewrite vc_int in H. unfold zcmp in H. destruct (z <? z0) eqn:E1; [discriminate|]. destruct (z0 <? z) eqn:E2; [discriminate|]. lia.
+Qed.
+
+Lemma eval_cong e x y : row_eqb x y = true -> vcompare (eval e x) (eval e y) = 0.
+Proof.
+  intro H. apply row_eqb_Forall2 in H. pose proof (fun i => Forall2_nth x y i H) as N. unfold veq in N.
+  destruct e as [i|c|i c|i c]; cbn [eval].
+  - apply N.
+  - apply vcompare_refl.
+  - rewrite (veq_is_null _ _ (N i)). destruct (is_null (nth i y VNull) || is_null c) eqn:E; [reflexivity|].
+    rewrite vc_bool. apply orb_false_iff in E. destruct E as [E1 E2].
+    assert (Q : vequal (nth i x VNull) c = vequal (nth i y VNull) c).
+    { unfold vequal. rewrite (vcompare_eq_cong _ _ c (N i)).
+      destruct (nth i x VNull) eqn:Ex, (nth i y VNull) eqn:Ey, c; try reflexivity; simpl in *; discriminate. }
+    rewrite Q. destruct (vequal (nth i y VNull) c); reflexivity.
+  - rewrite (veq_is_null _ _ (N i)). destruct (is_null (nth i y VNull)); [reflexivity|].
+    rewrite (veq_int_field _ _ (N i)). apply vcompare_refl.
+Qed.
+
+Lemma eval_pred_congruent e : pred_congruent (eval e).
+Proof.
+  intros x y H. unfold passes. pose proof (eval_cong e x y H) as E. pose proof (veq_tid _ _ E) as T.
+  destruct (eval e x), (eval e y); simpl in T; try discriminate; try reflexivity.
+  rewrite vc_bool in E. destruct b, b0; try reflexivity; discriminate.
+Qed.
+Lemma eval_map_congruent es : map_congruent (map eval es).
+Proof.
+  intros x y H. apply row_eqb_Forall2. unfold map_row. rewrite !map_map.
+  induction es as [|e es IH]; [constructor|]. cbn [map]. constructor; [apply eval_cong; exact H | exact IH].
+Qed.
+Lemma eval_key_congruent ks : key_congruent (okeys_of ks).
+Proof.
+  intros k Hk x y H. unfold okeys_of in Hk. apply in_map_iff in Hk. destruct Hk as [[d e] [<- _]]. cbn [snd]. apply eval_cong. exact H.
+Qed.
+Lemma run_filter_ext p q t : (forall j, passes p j = passes q j) -> run_filter p t = run_filter q t.
+Proof. intro P. unfold run_filter. induction t as [|[r|w] t IH]; [reflexivity| |]; cbn [flat_map filter_step]; rewrite IH; [rewrite (P (vals r))|]; reflexivity. Qed.
+
+Lemma table_joined_congruent table a b : joined_congruent (table_joined table a b).
+Proof.
+  intros x y o H. unfold table_joined.
+  apply row_eqb_Forall2 in H. pose proof (Forall2_nth x y b H) as N. unfold veq in N.
+  assert (P : forall j, passes (fun j => let u := nth a j VNull in let v := nth b x VNull in if is_null u || is_null v then VNull else VBool (vequal u v)) j =
+                        passes (fun j => let u := nth a j VNull in let v := nth b y VNull in if is_null u || is_null v then VNull else VBool (vequal u v)) j).
+  { intro j. unfold passes. cbv zeta. rewrite (veq_is_null _ _ N).
+    destruct (is_null (nth a j VNull) || is_null (nth b y VNull)) eqn:E; [reflexivity|].
+    apply orb_false_iff in E. destruct E as [E1 E2].
+    assert (Q : vequal (nth a j VNull) (nth b x VNull) = vequal (nth a j VNull) (nth b y VNull)).
+    { unfold vequal. rewrite (vcompare_eq_cong_r (nth a j VNull) _ _ N).
+      pose proof (veq_is_null _ _ N) as Q0. rewrite E2 in Q0.
+      destruct (nth a j VNull), (nth b x VNull), (nth b y VNull); try reflexivity; simpl in *; discriminate. }
+    rewrite Q. reflexivity. }
+  f_equal. f_equal. apply run_filter_ext. exact P.
+Qed.
